@@ -159,6 +159,48 @@ theorem array_refines (n : Nat) (zero : α) (h : List (Op α)) :
     WRel (RArr n) (run (arrImpl n zero) World.empty h) (run (arraySpec n zero) World.empty h) :=
   run_sim (arr_sim n zero) h (wrel_empty _) (allOk_of_forall _ _ h (fun _ _ _ => trivial) _)
 
+/-! ### utl::tuple / utl::tuplev2 — any arity (utl::tuple is implemented for 1 … 12 components, tuple.hpp:29-371) -/
+
+/-- a tuple of `n` components (heterogeneous in C++; the model is parametric in the payload, every component carries
+    its own) holds what `std::tuple` — a list of fixed length `n` — holds after EVERY history over
+    {default / element-wise construction, copy, assign(other|self), `get<I>(t) = v`, `get<I>(t)`, destroy}, for
+    every arity `n` -/
+theorem tuple_refines (n : Nat) (zero : α) (h : List (Op α)) :
+    WRel (RArr n) (run (arrImpl n zero) World.empty h) (run (arraySpec n zero) World.empty h) :=
+  array_refines n zero h
+
+/-- components are independent, in every reachable state: `get<i>(t) = a` replaces component `i` of that tuple,
+    keeps its other components and leaves every other object alone -/
+theorem tuple_set_component (n : Nat) (zero : α) (h : List (Op α)) (s i : Nat) (a : α) (x : SVec α)
+    (hx : (run (arrImpl n zero) World.empty h).objs s = some x) (hi : i < n) :
+    x.view.length = n ∧
+    (∃ y, (step (arrImpl n zero) (run (arrImpl n zero) World.empty h) (.write s i a)).objs s = some y ∧
+          y.view = x.view.set i (some a)) ∧
+    ∀ k, k ≠ s → (step (arrImpl n zero) (run (arrImpl n zero) World.empty h) (.write s i a)).objs k
+                  = (run (arrImpl n zero) World.empty h).objs k := by
+  have hr := tuple_refines n zero h s
+  rw [hx] at hr
+  cases hy : (run (arraySpec n zero) World.empty h).objs s <;> simp only [hy, ORel] at hr
+  rename_i l
+  have hlen : x.cells.length = n := by rw [hr.cells]; simpa using hr.len
+  have hsz : (arrImpl n zero).size x = n := hr.size
+  refine ⟨by simp [SVec.view, List.length_take, hlen, hr.size], ?_, ?_⟩
+  · refine ⟨(SVec.write x i a (run (arrImpl n zero) World.empty h).led).1, ?_, ?_⟩
+    · have hi' : i < (arrImpl n zero).size x := by rw [hsz]; exact hi
+      simp only [step, hx, hi', if_true, World.put]
+      rfl
+    · have hil : i < x.cells.length := by omega
+      simp [SVec.write, SVec.store, hil, SVec.view, List.take_set]
+  · intro k hk
+    exact step_frame _ _ _ k (by simpa [Op.target] using fun e => hk e.symm)
+
+/-- a 5-tuple: element-wise construction, copy, component writes on both, assignment back -/
+example :
+    let w := run (arrImpl 5 (0 : Int)) World.empty
+      [.ctorV 0 [1, 2, 3, 4, 5], .copy 1 0, .write 0 2 77, .write 1 4 9, .assign 0 1]
+    (w.objs 0).map SVec.view = some [some 1, some 2, some 3, some 4, some 9] ∧
+    (w.objs 1).map SVec.view = some [some 1, some 2, some 3, some 4, some 9] := by decide
+
 /-! ### nmtools::small_vector over utl::either<utl::static_vector, utl::vector> -/
 
 /-- `small_vector<T,c>` holds exactly what `std::vector` holds — in static mode, in heap mode and across the switch at
